@@ -5,6 +5,10 @@ prop, path = sys.argv[1], sys.argv[2]
 rec = json.load(open(path))
 print("obligation:", rec.get("obligation"))
 print("solver:", rec.get("status"), rec.get("solver"))
+if rec.get("rerun"):
+    # bounded stand-in (C03): the replay is a re-run of the exhaustive harness, which stops at the first disagreement
+    print(rec.get("failure_core") or rec.get("failure_wrapper") or "")
+    sys.exit(subprocess.call(rec["rerun"], shell=True))
 src = rec.get("test_source")
 if not src:
     print("no executable replay in this record:", rec.get("test_result"))
